@@ -111,11 +111,8 @@ def surface_normal_from_cylindrical_derivatives(fp, ft, r, t):
     """
     cost = np.cos(t)
     sint = np.sin(t)
-    # on the axis (r=0) the azimuthal derivative carries no slope; 1/r would turn the normal into NaN there
-    onaxis = r == 0
-    onebyr = np.where(onaxis, 0, 1 / np.where(onaxis, 1, r))
-    x = fp * cost - onebyr * ft * sint
-    y = fp * sint + onebyr * ft * cost
+    x = fp * cost - 1/r * ft * sint
+    y = fp * sint + 1/r * ft * cost
     return x, y
 
 
@@ -806,7 +803,10 @@ class Surface:
             rsq = r * r
             z = conic_sag(params['c'], params['k'], rsq)
             dr = conic_sag_der(params['c'], params['k'], r)
-            dx, dy = surface_normal_from_cylindrical_derivatives(dr, 0, r, t)
+            # rotationally symmetric: there is no azimuthal derivative, so the Cartesian slopes need no 1/r
+            # (which made the normal of the exactly on-axis ray 0 * inf = NaN)
+            dx = dr * np.cos(t)
+            dy = dr * np.sin(t)
             return z, dx, dy
 
         return cls(typ=typ, P=P, n=n, FFp=FFp, R=R, params=params, bounding=bounding)
